@@ -294,12 +294,17 @@ func runWorkers(u *unit, bin, prop, outDir string, seed uint64, workers int, bud
 }
 
 // replayOnce runs the harness binary on a replay file in a fresh process.
-func replayOnce(u *unit, bin, prop, replayPath, outDir string) (*failure, string) {
+func replayOnce(u *unit, bin, prop, replayPath, outDir string, raw bool) (*failure, string) {
 	_ = os.MkdirAll(outDir, 0o755)
 	cmd := exec.Command(bin, "-test.run", "^TestVerif$", "-test.timeout", "20m", "-test.count", "1")
 	cmd.Dir = filepath.Join(repoDir, u.Module, u.Package)
 	cmd.Env = append(os.Environ(), "VERIF_PROP="+prop, "VERIF_OUT="+outDir, "VERIF_WORKER=999", "VERIF_REPLAY="+replayPath,
 		"GOMAXPROCS=1", "GODEBUG=randseednop=0,asyncpreemptoff=1", "GOTRACEBACK=all")
+	if !raw {
+		// same known-findings view as the search, so an enumeration engine walks past
+		// recorded findings to the violation the file was written for
+		cmd.Env = append(cmd.Env, "VERIF_KNOWN="+filepath.Join(verifDir, "known_findings.json"))
+	}
 	var out bytes.Buffer
 	cmd.Stdout, cmd.Stderr = &out, &out
 	_ = cmd.Run()
@@ -366,6 +371,7 @@ func main() {
 	budgetF := fs.Int("budget", 0, "wall budget in seconds for the search phase (overrides tier default)")
 	workersF := fs.Int("workers", 0, "number of worker processes")
 	keep := fs.Bool("keep", false, "keep scratch directory")
+	raw := fs.Bool("raw", false, "with --replay: ignore known_findings.json (show the first failing point even if it is a recorded finding)")
 	noEvidence := fs.Bool("no-evidence", false, "do not write the evidence file")
 	_ = fs.Parse(os.Args[2:])
 	if *tier == "" {
@@ -437,7 +443,7 @@ func main() {
 			scratch := filepath.Join(scratchRoot, u.Name)
 			_ = os.MkdirAll(scratch, 0o755)
 			bin, _ := buildUnit(u, scratch, os.Stdout)
-			f, out := replayOnce(u, bin, prop, *replay, filepath.Join(scratch, "replay"))
+			f, out := replayOnce(u, bin, prop, *replay, filepath.Join(scratch, "replay"), *raw)
 			if f == nil {
 				fmt.Println(tail(out, 30))
 				if !strings.Contains(out, "REPLAY-PASS") {
@@ -522,7 +528,7 @@ func main() {
 	var final string
 	if viol != nil {
 		// confirm by replay in a fresh process
-		f, out := replayOnce(violUnit.u, violUnit.bin, prop, viol.Replay, filepath.Join(scratchRoot, "confirm"))
+		f, out := replayOnce(violUnit.u, violUnit.bin, prop, viol.Replay, filepath.Join(scratchRoot, "confirm"), false)
 		dst := filepath.Join(verifDir, "replays", filepath.Base(viol.Replay))
 		_ = os.MkdirAll(filepath.Dir(dst), 0o755)
 		rb, _ := os.ReadFile(viol.Replay)
